@@ -1,0 +1,36 @@
+//! Verification hooks, compiled only with the cargo feature `verif-hooks`.
+//!
+//! Purely additive observation / pause points used by the external verification harness.
+//! With the feature off nothing of this module exists and no call site is compiled.
+
+use std::sync::atomic::{AtomicPtr, Ordering};
+
+/// Signature of the handler a harness may install: `(point name, a, b)`.
+pub type Handler = fn(&'static str, u64, u64);
+
+static HANDLER: AtomicPtr<()> = AtomicPtr::new(std::ptr::null_mut());
+
+/// Install (or remove) the process-wide handler called at every hook point.
+pub fn set_handler(handler: Option<Handler>) {
+    HANDLER.store(
+        handler.map_or(std::ptr::null_mut(), |f| f as *mut ()),
+        Ordering::SeqCst,
+    );
+}
+
+/// A hook point. No-op unless a handler is installed.
+#[inline]
+pub fn point(name: &'static str, a: u64, b: u64) {
+    let p = HANDLER.load(Ordering::Acquire);
+    if !p.is_null() {
+        let f: Handler = unsafe { std::mem::transmute::<*mut (), Handler>(p) };
+        f(name, a, b);
+    }
+}
+
+/// Re-export of the crate-private socket time limit conversion.
+#[cfg(all(unix, feature = "syscall"))]
+#[must_use]
+pub fn time_limit_of(tv: &libc::timeval) -> u64 {
+    crate::syscall::get_time_limit(tv)
+}
